@@ -1214,7 +1214,9 @@ func runNoHint() {
 		}
 	}
 	chk.Range(fmt.Sprintf("(4') no hint, character COUNTS: n non-ASCII characters for n = 1..64 and n within 2 of 128, 256, 512, 768, 1024, 1280 x fill {2-byte, 3-byte, 4-byte, mixed}, bare and inside ASCII text: write -> read == text [%d texts]", len(counted)), len(counted),
-		func(i int) string { return fmt.Sprintf("%d bytes, %d runes", len(counted[i]), utf8.RuneCountInString(counted[i])) },
+		func(i int) string {
+			return fmt.Sprintf("%d bytes, %d runes", len(counted[i]), utf8.RuneCountInString(counted[i]))
+		},
 		func(l *mc.Local, i int) { noHintOne(l, counted[i]) })
 
 	// every code point: the guess of the encoding of an undesignated byte segment looks at byte
@@ -1294,11 +1296,27 @@ func runNoHint() {
 		})
 }
 
+// noHintOne: no CHARACTER_SET hint. The text is written twice: with no further hint, and with
+// GS1_FORMAT (which puts an FNC1 header in front of the segments and says nothing about character
+// sets; texts with a per-cent sign, which FNC1 mode re-interprets in alphanumeric segments, are left
+// out of that second writing).
 func noHintOne(l *mc.Local, text string) {
+	noHintWith(l, text, false)
+	if !strings.Contains(text, "%") {
+		noHintWith(l, text, true)
+	}
+}
+
+func noHintWith(l *mc.Local, text string, gs1 bool) {
 	rc := rtCase{Sub: "nohint", TextHex: hx(text), Text: fmt.Sprintf("%+q", text)}
 	var code *qrenc.QRCode
 	var err error
-	pm, site := mc.Guard(func() { code, err = qrenc.Encoder_encode(text, qrdec.ErrorCorrectionLevel_L, encHints("")) })
+	eh := encHints("")
+	if gs1 {
+		rc.Text += " +GS1_FORMAT"
+		eh[gozxing.EncodeHintType_GS1_FORMAT] = true
+	}
+	pm, site := mc.Guard(func() { code, err = qrenc.Encoder_encode(text, qrdec.ErrorCorrectionLevel_L, eh) })
 	l.Count("evaluations", 1)
 	if pm != "" {
 		chk.Violation("C15/panic/"+site+"/encode", fmt.Sprintf("Encoder_encode(%+q) panics: %s", text, pm), rc)
@@ -1313,9 +1331,12 @@ func noHintOne(l *mc.Local, text string) {
 		chk.Violation("C15/panic/"+r.site+"/decode", fmt.Sprintf("decoding the symbol of %+q panics: %s", text, r.pm), rc)
 		return
 	}
-	l.Distinct("nontrivial", "nohint|"+text)
+	l.Distinct("nontrivial", fmt.Sprint("nohint|", gs1, "|", text))
 	if r.err != nil || r.text != text {
 		guess, _ := common.StringUtils_guessEncoding([]byte(text), nil)
+		if gs1 {
+			guess += "/gs1"
+		}
 		chk.Violation("C15/nohint/guess/"+guess, fmt.Sprintf("text %+q (UTF-8 bytes %X) written without hint reads back as %+q (err %v); the decoder guessed %s for the undesignated bytes", text, []byte(text), r.text, r.err, guess), rc)
 	}
 	l.Distinct("outcomes", "nohint/ok")
